@@ -3685,6 +3685,17 @@ def pack_objects_to_data(
       progress: Optional progress reporting callback
     Returns: Tuples with (type_num, hexdigest, delta base, object chunks)
     """
+    # An object is stored once, however often it was named: an index has one
+    # entry per id, and a pack that holds more records than its index has
+    # entries cannot be opened.
+    seen: set[bytes] = set()
+    unique = []
+    for entry in objects:
+        oid = (entry[0] if isinstance(entry, tuple) else entry).id
+        if oid not in seen:
+            seen.add(oid)
+            unique.append(entry)
+    objects = unique  # type: ignore[assignment]
     count = len(objects)
     if deltify is None:
         # PERFORMANCE/TODO(jelmer): This should be enabled but the python
